@@ -210,6 +210,8 @@ def parse_history(op_lines, obs_lines):
                 s.q.append(o)
             elif o[0] == "fn":
                 s.fn = o[1:]
+            elif o[0] in ("prt", "prtx", "pany"):
+                s.res = "ok" if (o[1] == "ok" or "back=ok" in " ".join(o)) else "err"
         if stl:
             s.st = parse_state(stl)
         s.pre = working
